@@ -53,6 +53,7 @@ type FuncContract struct {
 	SweepTags []string
 	Requires  []*Clause
 	TrustedFrame bool // frame assumed, body verified for everything else
+	Spawns    bool // starts its function argument in another goroutine (it may run at any later time)
 	Entry     []*Clause // assumed at entry, not imposed on callers (API entry points); listed as assumptions
 	Ensures   []*Clause
 	Invs      []*Clause
@@ -130,7 +131,7 @@ var tagRe = regexp.MustCompile(`\s*\[((?:C\d+)(?:\s*,\s*C\d+)*)\]\s*$`)
 var clauseKeywords = map[string]bool{
 	"func": true, "requires": true, "ensures": true, "modifies": true, "pure": true, "trusted": true,
 	"loop": true, "site": true, "ghost": true, "nonnil": true, "guarded_by": true, "entry": true, "state_fields": true, "callers": true, "map_ranges": true, "nilable": true, "fields_copied": true,
-	"sweep": true, "package": true, "axiom": true, "allow": true, "witness": true, "nosafety": true,
+	"sweep": true, "package": true, "axiom": true, "allow": true, "witness": true, "nosafety": true, "spawns": true,
 	"deferrule": true, "skipfield": true, "preserves": true, "typeinv": true, "updates": true, "deterministic": true, "init": true, "nosite": true, "blocks": true, "define": true, "fnspec": true, "result": true, "param": true, "implements": true,
 }
 
@@ -474,6 +475,11 @@ func (cs *Contracts) parseFile(path, pkg string, external bool) error {
 			} else {
 				cur.Trusted = true
 			}
+		case "spawns":
+			if cur == nil {
+				return fail("spawns outside func")
+			}
+			cur.Spawns = true
 		case "nosafety":
 			if cur == nil {
 				return fail("nosafety outside func")
